@@ -47,8 +47,30 @@ type Node struct {
 	Rich      bool     `json:"rich,omitempty"`      // module: emit the companion module g (identities, groupings)
 	RpcMirror bool     `json:"rpcmirror,omitempty"` // module: the same definitions once more as input of rpc zzin
 	Children  []*Node  `json:"children,omitempty"`
+	// Group: this container is written as "uses <Group.ID>" of a grouping that a
+	// sibling container uses too; what differs between the copies is written as
+	// refine (defaults) and augment (an extra case of the grouping's choice), what
+	// only this copy has (Group.Own) after the uses.
+	Group *Group `json:"group,omitempty"`
 
 	Parent *Node `json:"-"`
+}
+
+// Group describes how a container shares a grouping with its sibling copies.
+type Group struct {
+	ID    string            `json:"id"`
+	First bool              `json:"first,omitempty"` // this copy writes the grouping statement
+	Base  map[string]string `json:"base,omitempty"`  // default a leaf has in the grouping itself ("" none); a copy's different default is a refine
+	Own   []string          `json:"own,omitempty"`   // children (and cases of the grouping's choice) that only this copy has
+}
+
+func (g *Group) own(name string) bool {
+	for _, o := range g.Own {
+		if o == name {
+			return true
+		}
+	}
+	return false
 }
 
 // Link sets Parent pointers (after JSON decoding or construction).
@@ -265,6 +287,10 @@ func (n *Node) yang(b *strings.Builder, d int) {
 		b.WriteString("}\n")
 		return
 	}
+	if n.Kind == Container && n.Group != nil {
+		n.yangGrouped(b, d)
+		return
+	}
 	if n.Kind == Case && n.Shorthand {
 		// children written directly below the choice
 		for _, c := range n.Children {
@@ -383,6 +409,127 @@ func (n *Node) yang(b *strings.Builder, d int) {
 	b.WriteString("}\n")
 }
 
+// yangGrouped writes a container whose content comes from a shared grouping.
+func (n *Node) yangGrouped(b *strings.Builder, d int) {
+	g := n.Group
+	if g.First {
+		ind(b, d)
+		fmt.Fprintf(b, "grouping %s {\n", g.ID)
+		for _, c := range n.Children {
+			if g.own(c.Name) {
+				continue
+			}
+			cp := *c
+			if c.Kind == Leaf {
+				cp.Default = g.Base[c.Name]
+			}
+			if c.Kind == Choice {
+				cp.Children = nil
+				for _, cs := range c.Children {
+					if !g.own(cs.Name) {
+						cp.Children = append(cp.Children, cs)
+					}
+				}
+			}
+			cp.yang(b, d+1)
+		}
+		ind(b, d)
+		b.WriteString("}\n")
+	}
+	ind(b, d)
+	fmt.Fprintf(b, "container %s {\n", n.Name)
+	ind(b, d+1)
+	fmt.Fprintf(b, "uses %s {\n", g.ID)
+	for _, c := range n.Children {
+		if g.own(c.Name) {
+			continue
+		}
+		if c.Kind == Leaf && c.Default != g.Base[c.Name] && c.Default != "" {
+			ind(b, d+2)
+			fmt.Fprintf(b, "refine %s { default \"%s\"; }\n", c.Name, c.Default)
+		}
+		if c.Kind == Choice {
+			for _, cs := range c.Children {
+				if g.own(cs.Name) {
+					ind(b, d+2)
+					fmt.Fprintf(b, "augment %s {\n", c.Name)
+					cs.yang(b, d+3)
+					ind(b, d+2)
+					b.WriteString("}\n")
+				}
+			}
+		}
+	}
+	ind(b, d+1)
+	b.WriteString("}\n")
+	for _, c := range n.Children {
+		if g.own(c.Name) && c.Kind != Case {
+			c.yang(b, d+1)
+		}
+	}
+	ind(b, d)
+	b.WriteString("}\n")
+}
+
+// groupedPair builds two or three sibling containers that use one grouping:
+// the same leaves (one with a default refined differently in every copy, one
+// that inherits the grouping's default in the first copy only), a leaf-list,
+// and - where the store detects cases - a choice of three or five cases that
+// every copy extends by a case of its own; one copy also has a leaf of its own.
+func (g *gen) groupedPair() []*Node {
+	id := g.name("grp")
+	f1, f2, f3, ll := g.name("f"), g.name("f"), g.name("f"), g.name("ll")
+	var chName string
+	var caseNames, caseLeaves []string
+	if g.caps.Choices {
+		chName = g.name("ch")
+		for i := 0; i < g.r.Pick3(3, 5, 3); i++ {
+			caseNames = append(caseNames, g.name("cs"))
+			caseLeaves = append(caseLeaves, g.name("f"))
+		}
+	}
+	base := map[string]string{f1: "", f2: "5", f3: ""}
+	if !g.caps.Defaults {
+		base = map[string]string{f1: "", f2: "", f3: ""}
+	}
+	var out []*Node
+	n := g.r.Range(2, 3)
+	for i := 0; i < n; i++ {
+		g.n += 4
+		c := &Node{Kind: Container, Name: g.name("c"), Group: &Group{ID: id, First: i == 0, Base: base}}
+		l1 := &Node{Kind: Leaf, Name: f1, Type: "string"}
+		l2 := &Node{Kind: Leaf, Name: f2, Type: "int32", Default: base[f2]}
+		l3 := &Node{Kind: Leaf, Name: f3, Type: "string"}
+		if g.caps.Defaults {
+			l1.Default = fmt.Sprintf("d%d", i)
+			if i > 0 {
+				l2.Default = fmt.Sprint(9 + i)
+			}
+		}
+		c.Children = append(c.Children, l1, l2, l3)
+		if g.caps.LeafLists {
+			c.Children = append(c.Children, &Node{Kind: LeafList, Name: ll, Type: "string"})
+		}
+		if chName != "" {
+			ch := &Node{Kind: Choice, Name: chName}
+			for k := range caseNames {
+				ch.Children = append(ch.Children, &Node{Kind: Case, Name: caseNames[k], Children: []*Node{{Kind: Leaf, Name: caseLeaves[k], Type: "string"}}})
+			}
+			own := &Node{Kind: Case, Name: g.name("cs"), Children: []*Node{{Kind: Leaf, Name: g.name("f"), Type: "string"}}}
+			ch.Children = append(ch.Children, own)
+			c.Group.Own = append(c.Group.Own, own.Name)
+			c.Children = append(c.Children, ch)
+		}
+		if i == n-1 {
+			x := &Node{Kind: Leaf, Name: g.name("f"), Type: "string"}
+			c.Group.Own = append(c.Group.Own, x.Name)
+			c.Children = append(c.Children, x)
+		}
+		out = append(out, c)
+	}
+	return out
+}
+
 // ---------------------------------------------------------------- generator
 
 // Caps says what the store under test can represent, so that a generated
@@ -404,6 +551,7 @@ type Caps struct {
 	ChoiceDefaults bool     // choices may name a default case
 	Embeds         bool     // struct-backed nodeutil.Node: some fields are promoted from an embedded struct
 	ConvSlices     bool     // some int32 leaf-lists are []int64 fields
+	Groupings      bool     // some sibling containers share one grouping (refined defaults, augmented cases)
 	KeyTypes       []string // further key leaf types (besides string and, with IntKeys, int32)
 	NoPlainLeaves  bool     // leaves only as list keys (a store that cannot tell a zero scalar from an unset one and does not ignore zeros)
 	Fixture        *Node    // the store holds fixed Go types: schemas are seeded sub-schemas of this one
@@ -411,7 +559,7 @@ type Caps struct {
 
 func FullCaps() Caps {
 	return Caps{Choices: true, CompoundKeys: true, IntKeys: true, Bools: true, LeafLists: true,
-		MaxDepth: 3, MaxNodes: 25, Defaults: true, ListsInLists: true, Int64: true}
+		MaxDepth: 3, MaxNodes: 25, Defaults: true, ListsInLists: true, Int64: true, Groupings: true}
 }
 
 type gen struct {
@@ -703,6 +851,9 @@ func Generate(r *kit.Rng, caps Caps, name string, mustChoice, mustList bool) *No
 				l.Children = append(l.Children, g.choice(2, true))
 				m.Children = append(m.Children, l)
 			}
+		}
+		if caps.Groupings && !caps.NoPlainLeaves && g.r.Chance(1, 3) {
+			m.Children = append(m.Children, g.groupedPair()...)
 		}
 		if mustList {
 			has := false
